@@ -19,6 +19,24 @@ logger = logging.getLogger(__name__)
 
 def _remove_unused_optional_outputs(
     node: ir.Node, graph_outputs: frozenset[ir.Value], onnx_opset_version: int
+) -> bool:
+    """Remove unused optional outputs. Returns True if the node was changed."""
+    before = (
+        tuple(out.name for out in node.outputs),
+        len(node.outputs),
+        tuple(node.attributes),
+    )
+    _remove_unused_optional_outputs_impl(node, graph_outputs, onnx_opset_version)
+    after = (
+        tuple(out.name for out in node.outputs),
+        len(node.outputs),
+        tuple(node.attributes),
+    )
+    return before != after
+
+
+def _remove_unused_optional_outputs_impl(
+    node: ir.Node, graph_outputs: frozenset[ir.Value], onnx_opset_version: int
 ) -> None:
     try:
         if node.domain not in {"", "onnx.ai"}:
@@ -74,15 +92,17 @@ def _remove_unused_optional_outputs(
     node.resize_outputs(new_output_count)
 
 
-def _remove_trailing_empty_inputs(node: ir.Node) -> None:
-    # Remove trailing None inputs
+def _remove_trailing_empty_inputs(node: ir.Node) -> bool:
+    """Remove trailing None inputs. Returns True if the node was changed."""
     new_input_count = len(node.inputs)
     for i in reversed(range(len(node.inputs))):
         if node.inputs[i] is None:
             new_input_count -= 1
         else:
             break
+    changed = new_input_count != len(node.inputs)
     node.resize_inputs(new_input_count)
+    return changed
 
 
 def _remove_unused_nodes_in_graph_like(function_or_graph: ir.Function | ir.Graph) -> int:
@@ -99,9 +119,13 @@ def _remove_unused_nodes_in_graph_like(function_or_graph: ir.Function | ir.Graph
             function_or_graph.remove(node, safe=True)
             count += 1
         else:
-            _remove_trailing_empty_inputs(node)
-            if onnx_opset_version is not None:
-                _remove_unused_optional_outputs(node, graph_outputs, onnx_opset_version)
+            # Count every change so that the pass reports modified=True for them
+            if _remove_trailing_empty_inputs(node):
+                count += 1
+            if onnx_opset_version is not None and _remove_unused_optional_outputs(
+                node, graph_outputs, onnx_opset_version
+            ):
+                count += 1
             for attr in node.attributes.values():
                 if attr.type == ir.AttributeType.GRAPH:
                     count += _remove_unused_nodes_in_graph_like(attr.as_graph())
